@@ -25,6 +25,10 @@
 (* Mode "rows"   : every row up to MaxCols tokens            (pattern R)   *)
 (* Mode "objs"   : every qualified-name shape, round trip    (pattern R)   *)
 (* Mode "update" : every fault configuration                 (pattern S)   *)
+(* Mode "multi"  : every sequence of up to 3 --intersphinx URLs (host x    *)
+(*                 outcome of the fetch), loaded one after the other       *)
+(*                 through ONE IntersphinxCache into ONE SphinxInventory   *)
+(*                 (System.fetchIntersphinxInventories)      (pattern S)   *)
 (* Mode "file"   : rows observed from inventories written by the real      *)
 (*                 writer (code -> spec)                                   *)
 (***************************************************************************)
@@ -38,6 +42,8 @@ FixEmpty == "empty-token-shifts-columns" \in Fixed   \* columns may be separated
 FileRows == IF Mode = "file" THEN JsonDeserialize(IOEnv.ROWS_FILE) ELSE <<>>
 
 IsInt(c)    == c = "int"
+Hosts    == {"h1", "h2"}
+Outcomes == {"ok", "exception", "junk"}
 HasColon(c) == c \in {"py", "std", "pyx"}
 Range(s)    == {s[i] : i \in DOMAIN s}
 
@@ -157,6 +163,8 @@ Init ==
          /\ dups = <<>> /\ cfg = NoCfg /\ pc = "done"
       \/ /\ Mode = "objs" /\ row = <<>> /\ cfg = NoCfg /\ pc = "done"
          /\ dups \in {d \in (SeqsUpTo(BOOLEAN, MaxDepth) \ {<<>>}) : ~d[1]}          \* a module is never a duplicate
+      \/ /\ Mode = "multi" /\ row = <<>> /\ dups = <<>> /\ pc = "multi"
+         /\ cfg \in (SeqsUpTo([host : Hosts, out : Outcomes], 3) \ {<<>>})
       \/ /\ Mode = "update" /\ row = <<>> /\ dups = <<>> /\ pc = "rsplit"
          /\ cfg \in [url : UrlKinds, fetch : FetchKinds, header : HeaderKinds, zip : ZipKinds, text : TextKinds,
                      lines : SeqsUpTo(LineKinds, 3)]
@@ -185,7 +193,18 @@ Lines   == /\ pc = "lines" /\ Keep
                      [] eff = "error" -> errors' = errors + 1 /\ li' = li + 1 /\ UNCHANGED <<pc, links>>
                      [] eff = "ignored" -> li' = li + 1 /\ UNCHANGED <<pc, errors, links>>
                      [] eff = "link" -> links' = links \cup {li} /\ li' = li + 1 /\ UNCHANGED <<pc, errors>>
-Next == Rsplit \/ Fetch \/ Payload \/ Inflate \/ Decode \/ Lines
+\* ---- several inventories: model.System.fetchIntersphinxInventories (model.py: for url in options.intersphinx:
+\* self.intersphinx.update(cache, url)) over IntersphinxCache.get (sphinx.py:395-411), which turns ANY exception of the
+\* session into None and keeps no memory of it: what one URL did has no influence on the next one
+FetchNext == /\ pc = "multi" /\ Keep
+             /\ IF li > Len(cfg) THEN pc' = "done" /\ UNCHANGED <<li, errors, links>>
+                ELSE /\ li' = li + 1 /\ pc' = pc
+                     /\ CASE cfg[li].out = "ok" -> links' = links \cup {li} /\ UNCHANGED errors
+                          \* session.get raised -> None -> 'Failed to get object inventory'
+                          [] cfg[li].out = "exception" -> errors' = errors + 1 /\ UNCHANGED links
+                          \* a body that is not an inventory -> 'Failed to uncompress inventory'
+                          [] cfg[li].out = "junk" -> errors' = errors + 1 /\ UNCHANGED links
+Next == Rsplit \/ Fetch \/ Payload \/ Inflate \/ Decode \/ Lines \/ FetchNext
 Spec == Init /\ [][Next]_vars
 
 \* the contract of update (from the property statement)
@@ -202,6 +221,10 @@ UpdateClasses ==
    ELSE {}
 
 \* design-level invariants, relaxed by exactly the open known findings
+\* every inventory that could be fetched resolves its names, whatever happened to the others; one message per failure
+EachGoodResolves == (Mode = "multi" /\ pc = "done") =>
+                       /\ links = {i \in DOMAIN cfg : cfg[i].out = "ok"}
+                       /\ errors = Cardinality({i \in DOMAIN cfg : cfg[i].out # "ok"})
 Terminal == pc \in {"done", "raised"}
 DesignKnown ==
    /\ Mode \in {"rows", "file"} => RowClasses(row) \subseteq Open
@@ -209,6 +232,7 @@ DesignKnown ==
    \* longer is (the harness checks that on real projects), so only plain names are ever written
    /\ Mode = "objs" => ((\A i \in DOMAIN dups : ~dups[i]) => (RoundTrip(dups) /\ RoundTripSphinx(dups)))
    /\ Mode = "update" => (Terminal => UpdateClasses \subseteq Open)
+   /\ EachGoodResolves
 
 Emit ==
    CASE Mode \in {"rows", "file"} ->
@@ -217,6 +241,8 @@ Emit ==
      [] Mode = "objs" ->
           PrintT(ToJson([dups |-> dups, row |-> WriteLine(dups), impl |-> ImplParse(WriteLine(dups)),
                          roundtrip |-> RoundTrip(dups), sphinx |-> RoundTripSphinx(dups)]))
+     [] Mode = "multi" ->
+          (Terminal => PrintT(ToJson([cfg |-> cfg, errors |-> errors, links |-> links])))
      [] Mode = "update" ->
           (Terminal => PrintT(ToJson([cfg |-> cfg, pc |-> pc, errors |-> errors, links |-> links,
                                       usable |-> UsableLines, bad |-> BadLines, stagefault |-> StageFault,
